@@ -96,6 +96,10 @@ def is_constant_definition(node: ast.Constant, parent: ast.AST | None) -> bool:
     Returns:
         True if this is a constant definition
     """
+    if isinstance(parent, ast.AnnAssign):
+        # Annotated form of the same definition: MAX_SIZE: int = 100
+        return isinstance(parent.target, ast.Name) and _is_constant_name(parent.target.id)
+
     if not _is_assignment_node(parent):
         return False
 
